@@ -441,6 +441,30 @@ mod mcp_extract {
 /// of explain_matching, compiled verbatim (build.rs), evaluated on the date given in opts.date.
 pub fn c07_mcp(sk: &Skeleton) -> Leaf {
     let mut leaf = Leaf { outcome: "ok".into(), ..Default::default() };
+    if sk.opt_str("date").as_deref() == Some("scan") {
+        // replay of a failed all-dates proof: the first date on which the compiled statement leaves the statute
+        let mut bad: Option<String> = None;
+        'outer: for y in 0..=9999i32 {
+            for m in 1..=12u32 {
+                for d in 1..=31u32 {
+                    let Some(date) = chrono::NaiveDate::from_ymd_opt(y, m, d) else { continue };
+                    match mcp_extract::mcp_year(date) {
+                        None => {
+                            leaf.outcome = "not-extracted".into();
+                            return leaf;
+                        }
+                        Some(got) if got != tax_year_of(date) => {
+                            bad = Some(format!("explain_matching derives tax year {got} for {date}, statute: {}", tax_year_of(date)));
+                            break 'outer;
+                        }
+                        _ => {}
+                    }
+                }
+            }
+        }
+        leaf.ob_bool("C07.mcp-year-derivation", bad.is_none(), bad.as_deref().unwrap_or(""));
+        return leaf;
+    }
     let date = sk.opt_str("date").and_then(|d| chrono::NaiveDate::parse_from_str(&d, "%Y-%m-%d").ok()).unwrap_or(sk.base);
     match mcp_extract::mcp_year(date) {
         None => {
